@@ -31,6 +31,14 @@ CHECKS = {
              "operation itself); each history is executed under the six dialect classes inline and parameterised, and TLC (J_C09) folds the logged calls "
              "through the spec and compares the real tail tokens and parameter list with the expected ones. Exhaustive over the stated product.",
         ref="6/C09", technique="TLA+ builder state machine with per-dialect PagTail (PT_Builder); TLC-generated setter histories replayed; TLC trace judge (J_C09)"),
+    "C10": dict(
+        text="PT_Embed gives per embedding position what may surround the stand-alone text (brackets, alias) and the relation EmbedsVerbatim: outer tokens = "
+             "frame-before . stand-alone inner tokens (placeholders renumbered) . frame-after, where the frame is read off the same outer statement around a "
+             "benign inner query and must agree with Embed (FrameOK). TLC enumerates 86 inner queries - an aliased term of 9 term classes in each inner clause "
+             "(select, where, group by, having, order by, join on, paginated), nested and parameter-carrying inner queries - x 10 positions (FROM, JOIN, IN, "
+             "comparison, select item, CTE body, INSERT..SELECT, set-operation base / operand, CREATE TABLE AS) x 6 dialects. Both renderings come from the real "
+             "code (no reference renderer); J_C10 (TLC) evaluates the relation and reports the inner clause where the embedded text departs.",
+        ref="6/C10", technique="TLA+ embedding relation (PT_Embed) over two real renderings; TLC-enumerated inner query x position product; TLC judge (J_C10)"),
     "C11": dict(
         text="PT_Builder specifies the namespace decision NeedsNS (joins, several FROM items, subquery in FROM, UPDATE..FROM, WHERE on a foreign table - "
              "decided against the current sources), the qualifier of every reference QualOf (alias always, name iff namespaces are needed) and name positions "
